@@ -333,3 +333,26 @@ func Verif_C10_every_expiry_is_reported() {
 	_ = pc.Close()
 	verifapi.Quiesce()
 }
+
+// Verif_C10_packets_follow_the_routing_table: a relay that has a direct session with the destination
+// but whose routing table says the least-cost way there is through another neighbour (the direct link
+// is the expensive one): the packet goes where the TABLE says - hop accounting, expiry reports and
+// traceroute all describe the routed path, so forwarding must follow it.
+func Verif_C10_packets_follow_the_routing_table() {
+	n := verifNetceptor("A")
+	s := n.s
+	cb := n.verifConn("B", 10) // direct but expensive
+	cc := n.verifConn("C", 1)
+	s.routingTable["B"] = "C" // least-cost path A-C-B
+	s.routingTable["C"] = "C"
+	h := verifapi.Byte()
+	verifapi.Assume(h > 0)
+	_ = s.handleMessageData(&MessageData{FromNode: "S", ToNode: "B", FromService: "x", ToService: "svc", HopsToLive: h, Data: []byte{1}})
+	verifapi.Quiesce()
+	toB, toC := verifTake(cb), verifTake(cc)
+	verifapi.Cover("forwarded")
+	verifapi.Assert("packet-takes-the-routed-next-hop", verifapi.All(len(toC) == 1, len(toB) == 0))
+	if len(toC) == 1 {
+		verifapi.Assert("budget-decremented-by-one", toC[0][1] == h-1)
+	}
+}
